@@ -43,6 +43,7 @@ def check(run):
         run.guard("C16.7.label-walk", cfg, lambda: rule_label_walk(run, F, cfg))
         run.guard("C16.4.storing", cfg + "/hidden-generic", lambda: rule_hidden_generic_table(run, F, cfg))
         run.guard("C16.1.hash-agreement", cfg + "/request-args", lambda: rule_request_hash_args(run, F, cfg))
+        run.guard("C16.1.hash-agreement", cfg + "/key-spaces", lambda: rule_key_spaces(run, F, cfg))
         run.guard("C16.8.independent-injections", cfg, lambda: rule_independent_injections(run, F, cfg))
         run.guard("C16.2.bin-pairing", cfg + "/effects", lambda: rule_effects(run, F, cfg))
         run.guard("C16.5.generichide", cfg, lambda: rule_generichide(run, F, cfg))
@@ -104,6 +105,26 @@ def rule_hash(run, F, cfg):
     run.ob("C16.1.hash-agreement", "location-lower-cased", lower and len(hashed) == 1,
            "parse_before_sharp hashes each location after ASCII lower-casing it (or after idna::domain_to_ascii): `Example.org##.ad` "
            f"has to apply on example.org ({[x[:90] for x in pushed]})", site=pb.loc(0), config=cfg)
+
+
+def rule_key_spaces(run, F, cfg):
+    """A rule scoped to the HOST `example` (`example##.ad`, e.g. an intranet name) covers that host and its subdomains; a
+    rule scoped to the ENTITY `example.*` covers example.com, example.org, ... The two are looked up in the same bins.
+    If both kinds of location are keyed by the same function of the same text, `example##.ad` cannot be told from
+    `example.*##.ad` and applies on www.example.com as well (reported as a known finding)."""
+    pb = F.fn("filters::cosmetic::CosmeticFilter::parse_before_sharp")
+    run.touched(pb)
+    pushed = {}
+    for b, t in pb.calls(r"^std::vec::Vec::push$"):
+        vec = pb.vexpr_operand(t["args"][0])
+        pushed.setdefault(vec, set()).add((pb.vexpr_operand(t["args"][1]), pb.expr_operand(t["args"][1])))
+    ent = pushed.get("$entities_vec", set()) | pushed.get("$not_entities_vec", set())
+    host = pushed.get("$hostnames_vec", set()) | pushed.get("$not_hostnames_vec", set())
+    same = bool(ent) and bool(host) and ent == host
+    run.ob("C16.1.hash-agreement", "entity-and-hostname-key-spaces-distinct", bool(ent) and bool(host) and not same,
+           "entity locations (`example.*`) and hostname locations (`example`) are keyed differently; today both are "
+           f"fast_hash of the bare text ({sorted(x[0] for x in ent)} / {sorted(x[0] for x in host)}), so the single-label host "
+           "rule `example##.ad` is served on every example.<tld> site", site=pb.loc(0), config=cfg)
 
 
 def _bin_reads(f):
